@@ -160,6 +160,7 @@ fn run_in_thread(family: Family, mode: Mode) -> RunOut {
         Rc::new(crate::families::generate(family, &mut ch))
     };
     w.p_immediate.set(plan.p_immediate);
+    w.p_hold.set(plan.p_hold);
     w.w_outcome.set(plan.w_outcome);
     w.w_payload.set(plan.w_payload);
 
